@@ -365,10 +365,12 @@ func (bkt *Bucket) checkAndSet(ki *KeyInfo, v *Payload) error {
 
 	if payload != nil {
 		oldv = payload.Ver
-		if oldv > 0 && v.ValueHash == payload.ValueHash {
+		// only a set can carry "the same value" (a delete has no value: its hash is 0)
+		if oldv > 0 && v.Ver >= 0 && v.ValueHash == payload.ValueHash {
 			if Conf.CheckVHash {
-				if v.Ver != 0 {
-					// sync script would be here, e.g. set_raw(k, v, rev=xxx)
+				if v.Ver > oldv {
+					// sync script would be here, e.g. set_raw(k, v, rev=xxx):
+					// an explicit revision is accepted only if it is larger
 					bkt.htree.set(ki, &v.Meta, pos)
 				}
 				return nil
